@@ -29,3 +29,5 @@ def run(rep):
     cr.rule_input(rep, "C03.immutable")
     lr.rule_scanner(rep, "C03.line", "C03.scan")
     mr.rule_other_text(rep, "C03.other")
+    # tag names come from the tag-line splitter
+    lr.rule_tags(rep, "C03.tagline")
